@@ -19,7 +19,7 @@ import os
 
 from hypothesis import strategies as st
 
-from vlib import tools
+from vlib import patient, tools
 from vlib import elf as E
 from vlib.core import Check, Discard, Inconclusive, OracleSplit, Violation
 from vlib.elf import Elf
@@ -60,6 +60,7 @@ def normalise(case):
     """Symbols with owner/users resolved to module indices 0..nlibs (0 = executable)."""
     n = case["nlibs"]
     out = []
+    tls_owned = {}
     src = list(case["syms"])
     if case["force"]:
         # make the two witnesses of the non-trivial rule likely: library data used directly by the
@@ -76,6 +77,11 @@ def normalise(case):
         kind = s["kind"]
         if kind in FUNCS and owner != 0 and 0 in users and case["exe"] == "nopic" and not case["raw"]:
             owner = 0       # see in_canonical_plt_domain()
+        if (kind == "tls" and owner != 0 and tls_owned.get(owner) and case["bsymbolic"] and case["who"] in ("libs", "all")
+                and not case["raw"]):
+            kind = "data"   # see in_tls_bsymbolic_domain()
+        if kind == "tls":
+            tls_owned[owner] = tls_owned.get(owner, 0) + 1
         prot = s["prot"] and owner != 0
         # GNU ld refuses copy relocations against protected data; keep protected data for PIC executables
         if prot and kind not in FUNCS and case["exe"] in ("nopic", "pie") and 0 in users:
@@ -100,6 +106,23 @@ def in_canonical_plt_domain(case):
 
 
 FUNCS = ("func", "ifunc")
+
+
+KNOWN_TLSBSYM = "tls-gd-bsymbolic-dtpoff-not-written"
+
+
+def in_tls_bsymbolic_domain(case):
+    """Known finding's exact domain: a library linked by wild with -Bsymbolic defines >= 2
+    thread-local variables (so one of them has a non-zero offset in the module's TLS block): its
+    general-dynamic GOT pair gets a symbolic DTPMOD64 but the DTPOFF word is left 0, so the library
+    reads/writes the wrong variable."""
+    if not (case["bsymbolic"] and case["who"] in ("libs", "all")):
+        return False
+    owned = {}
+    for s in normalise(case):
+        if s["kind"] == "tls" and s["owner"] != 0:
+            owned[s["owner"]] = owned.get(s["owner"], 0) + 1
+    return any(v >= 2 for v in owned.values())
 
 
 def modname(m):
@@ -220,7 +243,11 @@ class C38(Check):
         return case_strategy()
 
     def excluded_by_construction(self, case):
-        return KNOWN_CANON if in_canonical_plt_domain(case) else None
+        if in_canonical_plt_domain(case):
+            return KNOWN_CANON
+        if in_tls_bsymbolic_domain(case):
+            return KNOWN_TLSBSYM
+        return None
 
     def run_case(self, case, ctx):
         d = ctx.dir
@@ -228,10 +255,10 @@ class C38(Check):
         n = case["nlibs"]
         cflags, lflags = EXE_MODES[case["exe"]]
         opt = [case["opt"], "-w"] + (["-fno-plt"] if case["noplt"] else [])
-        tools.cc(main_source(syms), "main.o", flags=[*opt, *cflags], cwd=d)
-        tools.cc(module_source(0, syms), "exe.o", flags=[*opt, *cflags], cwd=d)
+        patient.cc(main_source(syms), "main.o", flags=[*opt, *cflags], cwd=d)
+        patient.cc(module_source(0, syms), "exe.o", flags=[*opt, *cflags], cwd=d)
         for m in range(1, n + 1):
-            tools.cc(module_source(m, syms), f"lib{m}.o", flags=[*opt, "-fPIC"], cwd=d)
+            patient.cc(module_source(m, syms), f"lib{m}.o", flags=[*opt, "-fPIC"], cwd=d)
         nocopy = case["nocopyreloc"] and case["exe"] in ("picpie", "picnopie")
         outs = {}
         for cfg in ("ref", "test"):
@@ -246,14 +273,14 @@ class C38(Check):
                 args = ["-shared", "-o", f"{cfg}/lib{m}.so", f"lib{m}.o", *deps, *common, f"-Wl,-soname,lib{m}.so"]
                 if case["bsymbolic"]:
                     args.append("-Wl,-Bsymbolic")
-                r = tools.cc_link(lib_linker, args, cwd=d)
+                r = patient.cc_link(lib_linker, args, cwd=d)
                 self._ok(lib_linker, r, f"library {m}")
             args = [*lflags, "-o", f"{cfg}/prog", "main.o", "exe.o", *[f"{cfg}/lib{m}.so" for m in range(1, n + 1)], *common]
             if nocopy:
                 args.append("-Wl,-z,nocopyreloc")
-            r = tools.cc_link(exe_linker, args, cwd=d)
+            r = patient.cc_link(exe_linker, args, cwd=d)
             self._ok(exe_linker, r, "executable")
-            outs[cfg] = tools.run_exe(f"{sub}/prog", cwd=d, env={"LD_LIBRARY_PATH": sub})
+            outs[cfg] = patient.run_exe(f"{sub}/prog", cwd=d, env={"LD_LIBRARY_PATH": sub})
         ref, test = outs["ref"], outs["test"]
         if ref.timed_out or ref.rc != 0:
             raise Discard(f"GNU-ld-linked program fails (rc={ref.rc})")
@@ -268,8 +295,10 @@ class C38(Check):
             if not ref_all_one:
                 raise OracleSplit(f"GNU-ld-linked program itself reports inequalities and wild differs from it: {bad}")
             sig = self._signature(test, bad, syms)
-            if in_canonical_plt_domain(case) and sig.startswith("addr:func:lib-defined"):
+            if in_canonical_plt_domain(case) and sig.startswith(("addr:func:lib-defined", "addr:ifunc:lib-defined")):
                 sig = KNOWN_CANON
+            elif in_tls_bsymbolic_domain(case) and ":tls:" in sig:
+                sig = KNOWN_TLSBSYM
             raise Violation(sig, f"exe={case['exe']} who={case['who']}: GNU-ld-linked program prints all-equal, wild-linked "
                             f"program rc={test.rc} reports {bad or test.err[-200:]}", {"stderr": test.err[-300:]})
         if not ref_all_one:
